@@ -51,7 +51,7 @@ def ops_strategy(n):
         st.tuples(st.just('send'), st.integers(0, 5), st.integers(0, 1), st.integers(1, 60)),
         st.tuples(st.just('send'), st.integers(0, 5), st.integers(0, 1), st.integers(1, 60)),
         st.tuples(st.just('send'), st.integers(0, 5), st.integers(0, 1), st.integers(1, 60)),
-        st.tuples(st.just('disc'), st.integers(0, 5), st.integers(0, 1)),
+        st.tuples(st.just('disc'), st.integers(0, 5), st.integers(0, 1), st.sampled_from([0, 0, 1, 3])),
         st.tuples(st.just('scan'), dev, st.booleans(), st.integers(1, 2 ** n - 1), st.booleans()),
     )
     return st.lists(op, min_size=1, max_size=10)
@@ -326,11 +326,32 @@ def run_case(ctx, case) -> None:
                 side = op[2]
                 who = c['ca'] if side == 0 else c['cb']
                 marks = {d: len(discs[d]) for d in range(n)}
+                # PDUs put on the connection immediately before the disconnection (no loop iteration in between):
+                # they were sent on a live connection and the link is order preserving
+                trail = int(op[3]) if len(op) > 3 else 0
+                rcv = c['b'] if side == 0 else c['a']
+                rconn = c['cb'] if side == 0 else c['ca']
+                imark = {d: len(inbox[d]) for d in range(n)}
+                trailing = []
+                for _ in range(trail):
+                    counter[0] += 1
+                    payload = bytes([counter[0] & 0xFF, c['a'], c['b'], 0xDD]) + bytes((counter[0] + x) & 0xFF for x in range(5))
+                    trailing.append((rconn.handle, payload))
+                    who.send_l2cap_pdu(CID, payload)
                 try:
                     await asyncio.wait_for(who.disconnect(), 30.0)
                 except Exception as e:  # noqa: BLE001
                     fail(f'disconnect_failed/{type(e).__name__}', f'disconnect raised {e!r}')
                 await settle()
+                if trail:
+                    labels.add('payload_right_before_disconnect')
+                    got = inbox[rcv][imark[rcv]:]
+                    if got != trailing:
+                        fail(f'delivery/before_disconnect/{c["transport"].name}',
+                             f'{trail} PDU(s) sent right before disconnect() arrived as {[(h, p.hex()) for h, p in got]}')
+                    for d in range(n):
+                        if d != rcv and len(inbox[d]) != imark[d]:
+                            fail('delivery/misrouted', f'payload for {rcv} also/instead delivered to device {d}')
                 c['alive'] = False
                 labels.add('disconnect_by_central' if side == 0 else 'disconnect_by_peripheral')
                 for d, conn in ((c['a'], c['ca']), (c['b'], c['cb'])):
